@@ -209,6 +209,15 @@ Definition built_hdrb (h : mheader) : bool :=
   hdr_valid h && lenb 2 (h_vendor h) && lenb 12 (h_prefix h).
 
 Definition builtb (m : message) : bool := built_hdrb (m_hdr m) && forallb built_subb (m_subs m).
+
+(* `built` without trusting the content_length found in the submessage header: used by the oracle
+   for messages whose content_length was computed by the implementation itself (no Submessage
+   literal with a hand-written length among the ops), so that a wrong len_serialized() is judged
+   by its consequences instead of making the message fall outside `built` *)
+Definition built_sub_looseb (s : submsg) : bool :=
+  (sm_kind s =? kind_of_body (sm_body s)) && (0 <=? sm_flags s) &&
+  (Z.land (sm_flags s) (fmask (sm_kind s)) =? sm_flags s) && (sm_bflags s =? sm_flags s) &&
+  (len_serialized (sm_body s) <? 65536) && built_bodyb (sm_flags s) (sm_body s).
 Definition built_sub (s : submsg) : Prop := built_subb s = true.
 Definition built (m : message) : Prop := builtb m = true.
 
@@ -340,10 +349,17 @@ Definition obs_eqb (m i : obs) : bool := dec2b (obs_eq_dec m i).
 (* the property oracle: looks at the case and at the observation only *)
 Definition mem (x : Z) (l : list Z) : bool := existsb (Z.eqb x) l.
 
+Definition is_raw (o : bop) : bool := match o with OpRaw _ => true | _ => false end.
+(* the messages the property speaks about: built, or produced by builder / create_submessage calls
+   only and built up to the content_length the implementation computed *)
+Definition demandedb (ops : list bop) (m : message) : bool :=
+  builtb m ||
+  (negb (existsb is_raw ops) && built_hdrb (m_hdr m) && forallb built_sub_looseb (m_subs m)).
+
 Definition ok (c : case) (o : obs) : bool :=
   match c, o with
   | CMsg ctx h ops, ObsMsg m bytes ctx_same parsed reser_same =>
-    if builtb m then
+    if demandedb ops m then
       (* parses back to an equal message up to the zero padding; same bytes in either context;
          lengths and flags agree with the bytes; re-serialising reproduces the bytes *)
       ctx_same && dec2b (pres_eq_dec message_eq_dec parsed (POk (pad_canon m))) && reser_same &&
